@@ -110,6 +110,13 @@ Theorem C10_failed_registration_can_be_retried : forall ranges maxp maxpool s c 
 Proof. exact failed_registration_can_be_retried. Qed.
 Print Assumptions C10_failed_registration_can_be_retried.
 
+(* quota_returned, global form: on every history the counter of a session equals the summed weight of the
+   proxies it holds right now (so every stop and every failed registration has returned what it took) *)
+Theorem C10_quota_equals_live_weight : forall ranges maxp maxpool s c ct,
+  reach ranges maxp maxpool s -> 0 < maxp -> ss_get c (sr_sess s) = Some ct -> ss_used ct = wsum (ss_pxys ct).
+Proof. exact quota_equals_live_weight. Qed.
+Print Assumptions C10_quota_equals_live_weight.
+
 (* others_untouched: in every reachable state a registered proxy has every resource its object recorded,
    under its own name; and stopping ANOTHER proxy (CloseProxy), ending ANOTHER session, or any registration
    whatever its outcome keeps it registered with the same object, hence with all its resources *)
